@@ -190,7 +190,14 @@ func Build(r *rand.Rand, root string, o Opts) error {
 		f := fix{p: p, mode: modes[r.Intn(len(modes))], uid: owners[r.Intn(len(owners))], gid: owners[r.Intn(len(owners))], sec: t[0], nsec: t[1], link: link}
 		if o.Xattrs && !link && r.Intn(3) == 0 {
 			for k := 0; k < 1+r.Intn(3); k++ {
-				f.xs = append(f.xs, [2]string{fmt.Sprintf("user.k%d", r.Intn(20)), fmt.Sprintf("v%d", r.Intn(1000))})
+				v := fmt.Sprintf("v%d", r.Intn(1000))
+				switch r.Intn(4) {
+				case 0: // binary values: zero bytes inside and at the end (capabilities, ACLs, C strings stored with their terminator)
+					v = fmt.Sprintf("\x01\x00\x00\x02%d\x00tail", r.Intn(1000))
+				case 1:
+					v = fmt.Sprintf("c-string-%d\x00", r.Intn(1000))
+				}
+				f.xs = append(f.xs, [2]string{fmt.Sprintf("user.k%d", r.Intn(20)), v})
 			}
 		}
 		return f
